@@ -809,7 +809,8 @@ def _refute_with_int_window(fs, sorts, names, kmax, timeout_ms):
             ok = False
         if ok:
             return "refuted", "(integer quantifiers: candidate from the window -1..%d, validated against the unexpanded formulas)\n" % (k + 1) + _model_str(m), k
-    return "unknown", "", kmax
+    # as before this stage existed, such a VC counts as "not expandable" for the callers that only look for SOME model (the vacuity covers)
+    return "unknown", "no finite-scope expansion: quantifier over Int (no validated candidate in the integer windows tried)", kmax
 
 
 def _model_str(m, limit=6000):
